@@ -46,7 +46,8 @@ def prop(pid, **kw):
     PROPS[pid] = d
 
 
-prop("C06")
+for _i in range(1, 21):
+    prop("C%02d" % _i)
 
 
 class Lock:
